@@ -16,15 +16,17 @@ func init() {
 		ID:    "C04",
 		Title: "Packing files into zips is invisible to clients and recoverable from the zips",
 		Explanation: "Decided (structural necessary conditions in pkg/blobserver/blobpacked): " +
-			"Z-order — in (*packer).writeAZip every removal of loose blobs from 'small' lies on the success edge of a meta CommitBatch, every meta write/commit lies on the success edge of the receive of the zip into 'large', every row put into a batch is put into a batch that is committed afterwards and names (in key or value) the ref under which that zip was received; the un-suffixed whole-file row 'w:<wholeref>' is written outside reindex only where the MakingZips loop has exited (pk.chunksRemain known empty); small.RemoveBlobs is called only from writeAZip and the client-facing RemoveBlobs. " +
+			"Z-order — in (*packer).writeAZip every removal of loose blobs from 'small' lies on the success edge of a meta CommitBatch, every meta write/commit lies on the success edge of the receive of the zip into 'large', every row put into a batch is put into a batch that is committed afterwards and names (in key or value) the ref under which that zip was received; every source of the refs handed to small.RemoveBlobs there is also a source of the key of a b: row of that batch (local element-flow; same sources, not same run-time sets); the un-suffixed whole-file row 'w:<wholeref>' is written outside reindex only where the MakingZips loop has exited (pk.chunksRemain known empty); small.RemoveBlobs is called only from writeAZip and the client-facing RemoveBlobs (frame rule: any other removal site is unordered with respect to a committed mapping). " +
 			"Z-size — the bytes received into 'large' come from a bytes.Buffer whose Len() is known <= the result of (*storage).maxZipBlobSize at the receive, and every return of maxZipBlobSize is the test override field or a constant <= constants.MaxBlobSize. " +
 			"Z-read — in Fetch, SubFetch and StatBlobs every call into 'small' is unreachable once the getMetaRow row of the same ref is known to exist and be packed, every call into 'large' is unreachable when it is known not packed and takes ref/offset/length from that row (offset also from the caller's offset in SubFetch); the refs StatBlobs forwards to 'small' are exactly those appended after a miss in the meta lookup; ReceiveBlob acknowledges only when the row exists or small.ReceiveBlob succeeded; EnumerateBlobs merges exactly 'small' and the enumerator over the 'b:' range. " +
 			"Z-codec — every meta row writer in the package has a statically known key/value shape; for each kind (b:, w:<ref>:<n>, w:<ref>, z:) the packer-side and the reindex-side writers produce the same field sequence (separators, ref vs. decimal integer), the parsers (parseMetaRow, parseMetaRowSizeOnly, parseZipMetaRow, conv.ParseFields in OpenWholeRef) expect that field count and kinds in base 10 with a bit size not below any unsigned writer argument; every meta.Find range ends at the successor of its prefix/separator; Manifest/BlobAndPos fields read by reindex/foreachZipBlob are written by writeAZip. " +
-			"NOT decided: equality of client-visible bytes/sizes before, during and after a pack; that the b: rows cover exactly the blobs removed from small; zip validity and that the first entry is the contiguous file; accuracy of the size estimate and termination of truncate-and-retry; any crash schedule or recovery outcome; streaming (StreamBlobs) and whole-file reads beyond the row codec; deletion marks (d: rows).",
+			"Z-recover — newFromConfig returns a usable store only after checkLargeIntegrity was called and, once reindex was started, only on its success edge; reindex reports success only on the success edge of each of its top-level CommitBatch calls and assigns s.meta the very KeyValue it filled; large.RemoveBlobs (deleting a zip) is only reachable where zipPartsInUse of the same ref succeeded and returned no part in use. " +
+			"NOT decided: equality of client-visible bytes/sizes before, during and after a pack; that the b: rows cover, as run-time sets, exactly the blobs removed from small (only that both are built from the same local sources); zip validity and that the first entry is the contiguous file; accuracy of the size estimate and termination of truncate-and-retry; any crash schedule or recovery outcome; streaming (StreamBlobs) and whole-file reads beyond the row codec; deletion marks (d: rows).",
 		RuleDocs: map[string]string{
 			"Z-order": "dominance on err==nil edges in (*packer).writeAZip (receive into large -> CommitBatch -> small.RemoveBlobs), value identity of the zip ref in every batch row, loop-exit fact for the whole-file row in (*packer).pack, who-may-call for small.RemoveBlobs",
 			"Z-size":  "dominating comparison fact zbuf.Len() <= maxZipBlobSize() at the large receive over the very buffer that is received; constant bound of maxZipBlobSize against constants.MaxBlobSize",
 			"Z-read":  "path pruning under the assumption 'row exists and is packed' / 'row is not packed' from each getMetaRow lookup in Fetch/SubFetch/StatBlobs/ReceiveBlob; value dependence of the large read on the row; literal structure of the MergedEnumerate sources",
+			"Z-recover": "dominance: start-up (newFromConfig) returns a store only after checkLargeIntegrity ran and, in a recovery mode, after reindex succeeded; reindex returns success only after every top-level CommitBatch on the new index succeeded and installs that same index; a zip is removed from large only where zipPartsInUse of the same ref succeeded with an empty result",
 			"Z-codec": "table agreement: statically evaluated Sprintf/concatenation shapes of all meta row writers, compared between sibling writers and with the parse-call chains of the parsers; Find range limits; struct fields read vs. written for the zip manifest",
 		},
 		Run:       runC04,
@@ -47,6 +49,7 @@ func runC04(p *Program, r *Reporter) {
 	c04ZSize(p, r)
 	c04ZRead(p, r)
 	c04ZCodec(p, r, writers)
+	c04ZRecover(p, r)
 }
 
 // ---------------------------------------------------------------------------
@@ -799,6 +802,49 @@ func c04ZOrder(p *Program, r *Reporter, writers []*c04Writer) {
 			"row is committed with the batch and names the ref under which the zip was received into large",
 			"no blob-ref field of this row is the ref passed to (or returned by) the receive of the zip into large: the row maps to a different blob than the zip just written")
 	}
+	// (c') the refs removed from small are refs the committed batch maps with b: rows
+	bKind := c04StrConst(p, "blobMetaPrefix") + "<ref>"
+	mapped := map[string]ssa.Value{}
+	for _, w := range writers {
+		if w.c.Fn != fn || !w.batch || w.kind != bKind {
+			continue
+		}
+		for _, t := range w.key {
+			if t.Hole && t.class() == "ref" && t.Val != nil {
+				for k, v := range c04ValueLeaves(fn, t.Val) {
+					mapped[k] = v
+				}
+			}
+		}
+	}
+	for _, rm := range removes {
+		construct := key + "#small.RemoveBlobs-refs-mapped"
+		var arg ssa.Value
+		for _, a := range rm.Common().Args {
+			if c04IsRefSlice(a.Type()) {
+				arg = a
+			}
+		}
+		if arg == nil {
+			r.Undecided(rule, construct, p.Pos(rm.Pos()), "no []blob.Ref argument")
+			continue
+		}
+		leaves, ok := c04SliceLeaves(fn, arg)
+		if !ok {
+			r.Violation(rule, construct, p.Pos(rm.Pos()), "the removed refs include a whole slice that is not built, element by element, in this function (for example a field of the packer): nothing relates them to the b: rows of the committed batch, so blobs without a mapping may be removed")
+			continue
+		}
+		var missing []string
+		for k, v := range leaves {
+			if _, ok := mapped[k]; !ok {
+				missing = append(missing, fmt.Sprintf("%s (line %d)", v.Name(), c04Line(p, v.Pos())))
+			}
+		}
+		sort.Strings(missing)
+		r.Check(len(missing) == 0 && len(leaves) > 0, rule, construct, p.Pos(rm.Pos()),
+			fmt.Sprintf("every ref source of the removed slice (%d) is also a ref source of a b: row key of the committed batch", len(leaves)),
+			fmt.Sprintf("removed refs come from %d source(s) that no b: row of the batch is keyed by: %s", len(missing), strings.Join(missing, ", ")))
+	}
 	// (d) whole-file row: only where the zip loop has exited
 	nWhole := 0
 	wholeKind := c04StrConst(p, "wholeMetaPrefix") + "<ref>"
@@ -842,11 +888,8 @@ func c04ZOrder(p *Program, r *Reporter, writers []*c04Writer) {
 			case fn:
 				r.OKTable(rule, construct, p.Pos(c.Pos()), "packer removal; ordering checked above")
 			case clientRemove:
-				// client-requested deletion: the removed refs must come from the lookups that found them not packed
-				ok := c04ClientRemoveFiltered(p, c)
-				r.Check(ok, rule, construct, p.Pos(c.Pos()),
-					"client-requested removal: refs handed to small are those appended under !isPacked() of their own meta lookup",
-					"client-requested removal hands refs to small that are not filtered by their meta row (appended where isPacked() is not known false)")
+				// client-requested deletion: removing a loose copy on request is always allowed
+				r.OKTable(rule, construct, p.Pos(c.Pos()), "client-requested deletion (the caller asked for these refs to go)")
 			default:
 				r.Violation(rule, construct, p.Pos(c.Pos()), "small.RemoveBlobs is called outside writeAZip and the client-facing RemoveBlobs: nothing orders this removal after a committed mapping")
 			}
@@ -854,11 +897,27 @@ func c04ZOrder(p *Program, r *Reporter, writers []*c04Writer) {
 	}
 	r.Analysed("small_remove_sites", n)
 	r.Analysed("writeAZip_batch_rows", nRows)
-	r.Floor(rule, 8)
+	r.Floor(rule, 9)
 }
 
 // c04SaysChunksEmpty: cond (with value val) implies len(pk.chunksRemain) == 0.
 func c04SaysChunksEmpty(cond ssa.Value, val bool) bool {
+	return c04SaysEmpty(cond, val, func(v ssa.Value) bool {
+		ld, ok := v.(*ssa.UnOp)
+		if !ok || ld.Op != token.MUL {
+			return false
+		}
+		fa, ok := ld.X.(*ssa.FieldAddr)
+		if !ok {
+			return false
+		}
+		n := NamedOf(fa.X.Type())
+		return n != nil && n.Obj().Name() == "packer" && fieldName(fa.X.Type(), fa.Field) == "chunksRemain"
+	})
+}
+
+// c04SaysEmpty: cond (with value val) implies len(x) == 0 for an x accepted by subject.
+func c04SaysEmpty(cond ssa.Value, val bool, subject func(ssa.Value) bool) bool {
 	for {
 		u, ok := cond.(*ssa.UnOp)
 		if !ok || u.Op != token.NOT {
@@ -879,16 +938,7 @@ func c04SaysChunksEmpty(cond ssa.Value, val bool) bool {
 		if !ok || b.Name() != "len" {
 			return false
 		}
-		ld, ok := call.Call.Args[0].(*ssa.UnOp)
-		if !ok || ld.Op != token.MUL {
-			return false
-		}
-		fa, ok := ld.X.(*ssa.FieldAddr)
-		if !ok {
-			return false
-		}
-		n := NamedOf(fa.X.Type())
-		return n != nil && n.Obj().Name() == "packer" && fieldName(fa.X.Type(), fa.Field) == "chunksRemain"
+		return subject(call.Call.Args[0])
 	}
 	eval := func(op token.Token, a, b int64) bool {
 		switch op {
@@ -1088,17 +1138,6 @@ func c04FilteredSlice(p *Program, arg ssa.Value) (bool, string) {
 	}
 	return true, fmt.Sprintf("%d append site(s), each unreachable once the ref's own row exists and is packed", len(stores))
 }
-
-func c04ClientRemoveFiltered(p *Program, c CallSite) bool {
-	for _, a := range c.Common().Args {
-		if c04IsRefSlice(a.Type()) {
-			ok, _ := c04FilteredSlice(p, a)
-			return ok
-		}
-	}
-	return false
-}
-
 
 // ---------------------------------------------------------------------------
 // Z-read
@@ -1928,7 +1967,7 @@ func c04ZCodec(p *Program, r *Reporter, writers []*c04Writer) {
 
 	c04FindRanges(p, r, writers, bP, wP, zP)
 	c04ManifestFields(p, r)
-	r.Floor(rule, 24)
+	r.Floor(rule, 28)
 }
 
 // c04FindRanges: every meta.Find in the package scans [prefix..., successor).
@@ -2108,4 +2147,353 @@ func c04ManifestFields(p *Program, r *Reporter) {
 			"manifest field "+f+" is read by "+FuncKey(reads[f].fn)+" (recovery/streaming) but never written by writeAZip: every zip produced is rejected or mis-indexed on reindex")
 	}
 	r.Analysed("manifest_fields_read", len(names))
+}
+
+// ---------------------------------------------------------------------------
+// Z-recover (additional rule: start-up check, reindex, zip deletion)
+
+func c04ZRecover(p *Program, r *Reporter) {
+	const rule = "Z-recover"
+	ctor := p.Func(c04Rel, "", "newFromConfig")
+	reindex := p.Func(c04Rel, "storage", "reindex")
+	integ := p.Func(c04Rel, "storage", "checkLargeIntegrity")
+	lastOf := func(b *ssa.BasicBlock) ssa.Instruction { return b.Instrs[len(b.Instrs)-1] }
+
+	// (i)/(ii) constructor
+	var reCalls, ckCalls []CallSite
+	for _, c := range CallsIn(ctor, false) {
+		switch c.Callee() {
+		case reindex:
+			reCalls = append(reCalls, c)
+		case integ:
+			ckCalls = append(ckCalls, c)
+		}
+	}
+	if len(reCalls) == 0 {
+		r.Violation(rule, FuncKey(ctor)+"#reindex", p.Pos(ctor.Pos()), "the constructor no longer calls reindex in recovery mode: the meta index cannot be rebuilt from the zips")
+	}
+	for i, nr := range MaybeNilErrorReturns(ctor) {
+		at := lastOf(nr.From)
+		construct := fmt.Sprintf("%s#success-return", FuncKey(ctor))
+		_ = i
+		checked := false
+		for _, ck := range ckCalls {
+			if Precedes(ck.Instr, at) {
+				checked = true
+			}
+		}
+		bad := ""
+		if !checked {
+			bad = "a store is returned without checkLargeIntegrity having compared large with the z: rows"
+		}
+		for _, rc := range reCalls {
+			if rc.Value() == nil {
+				bad = "reindex result dropped"
+				continue
+			}
+			if ReachableFrom(rc.Instr, nil)[at] {
+				if ok, why := c04SuccessAt(rc.Value(), at); !ok {
+					bad = "a store is returned after reindex was started but not on its success edge (" + why + "): a half-built index would serve reads"
+				}
+			}
+		}
+		r.Check(bad == "", rule, construct, p.Pos(nr.Ret.Pos()), "preceded by checkLargeIntegrity; on the success edge of reindex where reindex ran", bad)
+	}
+	// (iii) reindex: success only after every top-level CommitBatch succeeded; installs the index it filled
+	var commits []CallSite
+	var newMeta ssa.Value
+	for _, c := range CallsIn(reindex, false) {
+		cc := c.Common()
+		if cc.IsInvoke() && cc.Method.Name() == "CommitBatch" && IsNamed(cc.Value.Type(), c04SortedPkg, "KeyValue") {
+			commits = append(commits, c)
+			newMeta = cc.Value
+		}
+	}
+	if len(commits) == 0 {
+		r.Violation(rule, FuncKey(reindex)+"#commit", p.Pos(reindex.Pos()), "reindex commits nothing at top level")
+	}
+	for _, nr := range MaybeNilErrorReturns(reindex) {
+		at := lastOf(nr.From)
+		bad := ""
+		for _, cm := range commits {
+			if cm.Value() == nil {
+				bad = "CommitBatch result dropped"
+				continue
+			}
+			if ok, why := c04SuccessAt(cm.Value(), at); !ok {
+				bad = fmt.Sprintf("reindex reports success although the CommitBatch at line %d is not known to have succeeded (%s)", c04Line(p, cm.Pos()), why)
+			}
+		}
+		r.Check(bad == "", rule, FuncKey(reindex)+"#success-return", p.Pos(nr.Ret.Pos()), fmt.Sprintf("on the success edge of %d top-level CommitBatch call(s)", len(commits)), bad)
+	}
+	nInstall := 0
+	for _, b := range reindex.Blocks {
+		for _, in := range b.Instrs {
+			st, ok := in.(*ssa.Store)
+			if !ok {
+				continue
+			}
+			fa, ok := st.Addr.(*ssa.FieldAddr)
+			if !ok || fieldName(fa.X.Type(), fa.Field) != "meta" {
+				continue
+			}
+			if n := NamedOf(fa.X.Type()); n == nil || n.Obj().Name() != "storage" {
+				continue
+			}
+			nInstall++
+			ok2 := newMeta != nil && sameOrigin(st.Val, newMeta)
+			for _, cm := range commits {
+				if cm.Value() != nil {
+					if k, _ := c04SuccessAt(cm.Value(), st); !k {
+						ok2 = false
+					}
+				}
+			}
+			r.Check(ok2, rule, FuncKey(reindex)+"#install-meta", p.Pos(st.Pos()), "s.meta is replaced by the KeyValue the rows were committed to, after the commits succeeded", "s.meta is replaced by something other than the KeyValue reindex filled, or before its commits succeeded")
+		}
+	}
+	if nInstall == 0 {
+		r.Violation(rule, FuncKey(reindex)+"#install-meta", p.Pos(reindex.Pos()), "reindex never installs the rebuilt index as s.meta")
+	}
+	// (iv) deleting a zip from large
+	n := 0
+	for _, fn := range p.FuncsIn(c04Rel) {
+		for _, c := range CallsIn(fn, false) {
+			cc := c.Common()
+			if !cc.IsInvoke() || cc.Method.Name() != "RemoveBlobs" || c04Role(cc.Value) != "large" {
+				continue
+			}
+			n++
+			construct := FuncKey(fn) + "#large.RemoveBlobs"
+			inUseFn := p.Func(c04Rel, "storage", "zipPartsInUse")
+			elems, okE := c04VarargElems(cc.Args[1])
+			good, detail := false, "no zipPartsInUse call of the same ref guards the removal"
+			for _, g := range CallsIn(fn, false) {
+				if g.Callee() != inUseFn || g.Value() == nil {
+					continue
+				}
+				if k, why := c04SuccessAt(g.Value(), c.Instr); !k {
+					detail = "zipPartsInUse: " + why
+					continue
+				}
+				if !okE || len(elems) != 1 || !sameOrigin(elems[0], g.Common().Args[2]) {
+					detail = "the removed refs are not exactly the ref whose parts were checked"
+					continue
+				}
+				res := ResultValue(g.Value(), 0)
+				empty := false
+				for _, f := range FactsAt(c.Block()) {
+					if c04SaysEmpty(f.Cond, f.Val, func(v ssa.Value) bool { return res != nil && sameOrigin(v, res) }) {
+						empty = true
+					}
+				}
+				if !empty {
+					detail = "the removal is not under the fact that zipPartsInUse returned no part in use"
+					continue
+				}
+				good, detail = true, "guarded by zipPartsInUse(same ref) == nil error and empty result"
+			}
+			r.Check(good, rule, construct, p.Pos(c.Pos()), detail, "a zip is removed from large: "+detail+" (logical blobs still mapped into it become unreadable)")
+		}
+	}
+	r.Analysed("large_remove_sites", n)
+	r.Floor(rule, 5)
+}
+
+// ---------------------------------------------------------------------------
+// element flow: which blob refs may a slice / a struct field hold (local,
+// field-sensitive may-analysis used by Z-order "removed refs are mapped refs")
+
+type c04Flow struct {
+	leaves   map[string]ssa.Value // key -> representative value
+	seenEl   map[ssa.Value]bool
+	seenLoad map[string]bool
+	stores   map[*ssa.Alloc][]c04PathStore
+	fn       *ssa.Function
+}
+
+type c04PathStore struct {
+	path []int
+	st   *ssa.Store
+}
+
+func c04NewFlow(fn *ssa.Function) *c04Flow {
+	fl := &c04Flow{leaves: map[string]ssa.Value{}, seenEl: map[ssa.Value]bool{}, seenLoad: map[string]bool{}, stores: map[*ssa.Alloc][]c04PathStore{}, fn: fn}
+	for _, b := range fn.Blocks {
+		for _, in := range b.Instrs {
+			st, ok := in.(*ssa.Store)
+			if !ok {
+				continue
+			}
+			var path []int
+			addr := st.Addr
+			for {
+				if fa, ok := addr.(*ssa.FieldAddr); ok {
+					path = append([]int{fa.Field}, path...)
+					addr = fa.X
+					continue
+				}
+				break
+			}
+			if al, ok := addr.(*ssa.Alloc); ok {
+				fl.stores[al] = append(fl.stores[al], c04PathStore{path, st})
+			}
+		}
+	}
+	return fl
+}
+
+func (fl *c04Flow) leaf(v ssa.Value, path []int) {
+	fl.leaves[fmt.Sprintf("%p%v", v, path)] = v
+}
+
+// elems returns the values that may be elements of slice s; resolvable=false
+// when some contributor is opaque (field load, call result, parameter).
+func (fl *c04Flow) elems(s ssa.Value, seen map[ssa.Value]bool) (vals []ssa.Value, resolvable bool) {
+	if seen[s] {
+		return nil, true
+	}
+	seen[s] = true
+	switch x := s.(type) {
+	case *ssa.Const:
+		return nil, x.Value == nil
+	case *ssa.MakeSlice:
+		return nil, true
+	case *ssa.Convert:
+		return fl.elems(x.X, seen)
+	case *ssa.ChangeType:
+		return fl.elems(x.X, seen)
+	case *ssa.Phi:
+		resolvable = true
+		for _, e := range x.Edges {
+			v, r := fl.elems(e, seen)
+			vals = append(vals, v...)
+			resolvable = resolvable && r
+		}
+		return vals, resolvable
+	case *ssa.Call:
+		if b, ok := x.Call.Value.(*ssa.Builtin); ok && b.Name() == "append" && len(x.Call.Args) == 2 {
+			a, r1 := fl.elems(x.Call.Args[0], seen)
+			c, r2 := fl.elems(x.Call.Args[1], seen)
+			return append(a, c...), r1 && r2
+		}
+	case *ssa.Slice:
+		if al, ok := x.X.(*ssa.Alloc); ok {
+			if _, isArr := al.Type().(*types.Pointer).Elem().Underlying().(*types.Array); isArr {
+				if refs := al.Referrers(); refs != nil {
+					for _, u := range *refs {
+						if ia, ok := u.(*ssa.IndexAddr); ok {
+							if ir := ia.Referrers(); ir != nil {
+								for _, w := range *ir {
+									if st, ok := w.(*ssa.Store); ok && st.Addr == ssa.Value(ia) {
+										vals = append(vals, st.Val)
+									}
+								}
+							}
+						}
+					}
+				}
+				return vals, true
+			}
+		}
+		return fl.elems(x.X, seen)
+	case *ssa.UnOp:
+		if x.Op == token.MUL {
+			if al, ok := x.X.(*ssa.Alloc); ok && plainVariable(al) {
+				sts := storesTo(al)
+				resolvable = len(sts) > 0
+				for _, st := range sts {
+					v, r := fl.elems(st.Val, seen)
+					vals = append(vals, v...)
+					resolvable = resolvable && r
+				}
+				return vals, resolvable
+			}
+		}
+	}
+	return nil, false
+}
+
+// field collects the leaves of field path P of struct-or-ref value w.
+func (fl *c04Flow) field(w ssa.Value, path []int, depth int) {
+	if depth > 40 {
+		fl.leaf(w, path)
+		return
+	}
+	switch x := w.(type) {
+	case *ssa.UnOp:
+		if x.Op == token.MUL {
+			fl.load(x.X, path, x, depth+1)
+			return
+		}
+	case *ssa.Field:
+		fl.field(x.X, append([]int{x.Field}, path...), depth+1)
+		return
+	case *ssa.Phi:
+		key := fmt.Sprintf("phi%p%v", x, path)
+		if fl.seenLoad[key] {
+			return
+		}
+		fl.seenLoad[key] = true
+		for _, e := range x.Edges {
+			fl.field(e, path, depth+1)
+		}
+		return
+	case *ssa.ChangeType:
+		fl.field(x.X, path, depth+1)
+		return
+	}
+	fl.leaf(w, path)
+}
+
+func (fl *c04Flow) load(addr ssa.Value, path []int, self ssa.Value, depth int) {
+	key := fmt.Sprintf("ld%p%v", addr, path)
+	if fl.seenLoad[key] {
+		return
+	}
+	fl.seenLoad[key] = true
+	switch a := addr.(type) {
+	case *ssa.FieldAddr:
+		fl.load(a.X, append([]int{a.Field}, path...), self, depth+1)
+		return
+	case *ssa.IndexAddr:
+		es, ok := fl.elems(a.X, map[ssa.Value]bool{})
+		if ok && len(es) > 0 {
+			for _, e := range es {
+				fl.field(e, path, depth+1)
+			}
+			return
+		}
+	case *ssa.Alloc:
+		n := 0
+		for _, ps := range fl.stores[a] {
+			if len(ps.path) <= len(path) && fmt.Sprint(ps.path) == fmt.Sprint(path[:len(ps.path)]) {
+				n++
+				fl.field(ps.st.Val, path[len(ps.path):], depth+1)
+			}
+		}
+		if n > 0 {
+			return
+		}
+	}
+	fl.leaf(self, path)
+}
+
+// c04RefLeaves: leaves of all elements of slice s.
+func c04SliceLeaves(fn *ssa.Function, s ssa.Value) (map[string]ssa.Value, bool) {
+	fl := c04NewFlow(fn)
+	es, ok := fl.elems(s, map[ssa.Value]bool{})
+	if !ok {
+		return nil, false
+	}
+	for _, e := range es {
+		fl.field(e, nil, 0)
+	}
+	return fl.leaves, true
+}
+
+func c04ValueLeaves(fn *ssa.Function, v ssa.Value) map[string]ssa.Value {
+	fl := c04NewFlow(fn)
+	fl.field(v, nil, 0)
+	return fl.leaves
 }
